@@ -17,6 +17,15 @@ static bool g_modules_protected = false;
 static std::string g_tls_modules;
 static size_t g_protected_bytes = 0;
 
+// Static initialisers (dispatch table, Fp<>::one) have run at dlopen; from here on the replicas' image is read-only. Called by the C20 check
+// in the parent right after loading (so that not even the first library call of any worker may write: a lazily initialised table is state
+// written after load), and again - a no-op then - by the first conc run of a process.
+void conc_protect_modules(Replicas& reps) {
+    if (g_modules_protected || getenv("JV_REPLICA_FLAVOUR")) return;   // (coverage builds write their counters into the image)
+    for (auto rp : reps.all) { if (!rp->handle || rp->info.sanitized) continue; bool tls = false; rp->apply_dispatch(); g_protected_bytes += trap_protect_module(rp->path().c_str(), ("replica " + rp->label + " writable image (static storage)").c_str(), tls); if (tls) g_tls_modules += rp->label + " "; }
+    g_modules_protected = true;
+}
+
 struct Arena {
     uint8_t* base = nullptr; size_t cap = 0, used = 0;
     void init(size_t n) { base = (uint8_t*) trap_arena_alloc(n); cap = n; used = 0; }
@@ -25,12 +34,13 @@ struct Arena {
 };
 
 struct ConcRun {
-    static const int NKINDS = 33;
+    static const int NKINDS = 35;
     RunEnv& env; Rep& R; int view; const Plan& plan;
     Arena sh;                       // shared inputs, sealed read-only during the task phases
     // shared objects
     void *g1p[3], *g2p[3], *prep, *gt, *wparams, *wmsk, *wkey, *wct, *wsig, *lqparams, *lqmsk, *lqid, *lqsk, *lqct;
     std::vector<uint8_t> params_bytes, key_bytes, ct_bytes, sig_bytes;
+    std::vector<uint8_t> params_bad, key_bad, ct_bad, sig_bad, g1_bad, g2_bad, lqp_bad;   // uncompressed bytes with the last coordinate byte of the last element flipped (off the curve): the error paths of validating unmarshal
     jv_attr* sh_at[4] = {nullptr, nullptr, nullptr, nullptr};   // attribute arrays that several tasks read concurrently (sealed): ascending lists {0:5, 1:7+v, 2:9}
     jv_attr* sh_desc = nullptr;                                  // the same three slots in descending order (any order is accepted by precompute/encrypt/sign/verify)
     struct TaskOut { std::vector<std::string> digests; uint64_t stream_requests = 0; std::string err; };
@@ -72,6 +82,11 @@ struct ConcRun {
         lqsk = sh.take(R.sz(JV_SZ_LQ_SK)); R.jv_lq_keygen(view, lqsk, lqmsk, lqid);
         lqct = sh.take(R.sz(JV_SZ_LQ_CT)); uint8_t sym[16]; HashStub hsb; tl_hash = &hsb; R.jv_lq_encrypt(view, lqct, sym, 16, lqparams, lqid, jv_hash_cb, jv_rand_cb);
         tl_stream = nullptr; tl_hash = nullptr;
+        { auto bad = [&](int ok, void* obj) { size_t n = R.jv_wk_get_marshalled_length(view, ok, obj, 0); std::vector<uint8_t> b(n); R.jv_wk_marshal(view, ok, b.data(), obj, 0); b[n - 1] ^= 1; return b; };
+          params_bad = bad(JV_OK_WK_PARAMS, wparams); ct_bad = bad(JV_OK_WK_CT, wct); sig_bad = bad(JV_OK_WK_SIG, wsig);
+          key_bad = bad(JV_OK_WK_SK, wkey); if (key_bad.size() > 8) { key_bad[key_bad.size() - 1] ^= 1; key_bad[key_bad.size() - 5] ^= 1; }   // a key ends with a 4-byte slot index: damage the element before it
+          g1_bad.resize(96); R.jv_g1_marshal(view, g1_bad.data(), g1p[0], 0); g1_bad[95] ^= 1; g2_bad.resize(192); R.jv_g2_marshal(view, g2_bad.data(), g2p[0], 0); g2_bad[191] ^= 1;
+          lqp_bad.resize(R.jv_lq_get_marshalled_length(view, JV_OK_LQ_PARAMS, 0)); R.jv_lq_marshal(view, JV_OK_LQ_PARAMS, lqp_bad.data(), lqparams, 0); lqp_bad[lqp_bad.size() - 1] ^= 1; }
         for (int v4 = 0; v4 < 4; v4++) { sh_at[v4] = (jv_attr*) sh.take(3 * sizeof(jv_attr)); set_attr(sh_at[v4][0], 0, 5); set_attr(sh_at[v4][1], 1, 7 + (uint64_t) v4); set_attr(sh_at[v4][2], 2, 9); }
         sh_desc = (jv_attr*) sh.take(3 * sizeof(jv_attr)); set_attr(sh_desc[0], 2, 9); set_attr(sh_desc[1], 1, 7); set_attr(sh_desc[2], 0, 5);
         for (int v4 = 0; v4 < 4; v4++) for (size_t n = 1; n <= 3; n++) { jv_attrs t; t.a = sh_at[v4]; t.n = n; t.omit_all = 0; t.is_null = 0; t.native = nullptr; void* m = sh.take(R.jv_wk_native_list_bytes(view, n)); R.jv_wk_native_list_build(view, m, &t); nat_asc[v4][n - 1] = m; }
@@ -165,6 +180,12 @@ struct ConcRun {
                      n1 = r.jv_wk_get_marshalled_length(view, JV_OK_WK_PARAMS, wparams, 0); n2 = r.jv_wk_marshalled_length(view, JV_OK_WK_SK, 3, 1, 1); n3 = r.jv_lq_get_marshalled_length(view, JV_OK_LQ_PARAMS, 1); ul = r.jv_wk_unmarshalled_length(view, JV_OK_WK_SK, key_bytes.data(), key_bytes.size(), 0);
                      r.jv_lq_compute_id_from_hash(view, s.lqid2, h48); r.jv_lq_setup(view, s.lqparams2, s.lqmsk2, jv_rand_cb); }
                    uint8_t c1[97]; r.jv_g1_canon(c1, s.g1); d = strf("%d:%zu:%zu:%zu:%d:", ok, n1, n2, n3, ul) + hex(z.b, 8) + hex(s.fr.b, 8) + sha_hex(c1, 97, 8) + sha_hex(s.lqparams2.p, 576, 8) + sha_hex(s.bytes.p, 96, 6); break; }
+        case 33: { r.jv_wk_params_init(s.params, s.paramsh, 3); r.jv_wk_sk_init(s.key, s.keyb); int ok1, ok2, n;   // damaged parameters and key: every element after the bad one is still waiting when the verdict falls
+                   { InLib g; ok1 = r.jv_wk_unmarshal(view, JV_OK_WK_PARAMS, s.params, params_bad.data(), 0, 1); n = r.jv_wk_set_length(view, JV_OK_WK_SK, s.key, key_bad.data(), key_bad.size(), 0); ok2 = r.jv_wk_unmarshal(view, JV_OK_WK_SK, s.key, key_bad.data(), 0, 1); }
+                   d = strf("bad:%d:%d:%d", ok1, n, ok2); break; }
+        case 34: { int o1, o2, o3, o4, o5;
+                   { InLib g; o1 = r.jv_wk_unmarshal(view, JV_OK_WK_CT, s.ct, ct_bad.data(), 0, 1); o2 = r.jv_wk_unmarshal(view, JV_OK_WK_SIG, s.sig, sig_bad.data(), 0, 1); o3 = r.jv_g1_unmarshal(view, s.g1a, g1_bad.data(), 0, 1); o4 = r.jv_g2_unmarshal(view, s.g2a, g2_bad.data(), 0, 1); o5 = r.jv_lq_unmarshal(view, JV_OK_LQ_PARAMS, s.lqparams2, lqp_bad.data(), 0, 1); }
+                   d = strf("bad:%d%d%d%d%d", o1, o2, o3, o4, o5); break; }
         case 29: { { InLib g; r.jv_g2_random(view, s.g2, jv_rand_cb); } uint8_t c[193]; r.jv_g2_canon(c, s.g2); d = sha_hex(c, 193, 12); break; }
         }
         tl_stream = nullptr; tl_hash = nullptr;
@@ -174,11 +195,7 @@ struct ConcRun {
     std::string key_digest(void* key) { std::vector<uint8_t> b = marshal_digest(JV_OK_WK_SK, key); return sha_hex(b.data(), b.size(), 12); }
 
     void run() {
-        if (!g_modules_protected && !R.info.sanitized && !getenv("JV_REPLICA_FLAVOUR")) {   // (coverage builds write their counters into the image)
-            // static initialisers (dispatch table, Fp<>::one) have run at dlopen; from here on the replicas' image is read-only
-            for (auto rp : env.reps->all) { if (!rp->handle) continue; bool tls = false; rp->apply_dispatch(); g_protected_bytes += trap_protect_module(rp->path().c_str(), ("replica " + rp->label + " writable image (static storage)").c_str(), tls); if (tls) g_tls_modules += rp->label + " "; }
-            g_modules_protected = true;
-        }
+        conc_protect_modules(*env.reps);
         env.check(g_tls_modules.empty(), "C20", "no-thread-local-storage", "replica(s) " + g_tls_modules + "have a PT_TLS segment: the library keeps thread-local state");
         env.count("probe:bytes_of_replica_image_write_protected", g_protected_bytes);
         build_shared();
